@@ -97,7 +97,7 @@ func joinInts(xs []int64) string {
 func execTmpl(s *scenario) string {
 	w := getWorld(s.world)
 	var ci *chainInst
-	if s.roK > 0 || s.pb {
+	if s.roK > 0 || s.pb || s.fwd > 0 {
 		var err error
 		if ci, err = w.instantiate(); err != nil {
 			panic(err)
@@ -110,6 +110,28 @@ func execTmpl(s *scenario) string {
 		if err := ci.reorg(s.roF, s.roK); err != nil {
 			dbg("reorg: %v", err)
 			return "stale-line:reorg"
+		}
+	}
+	// the pool is filled on the tip as it is now; the chain may then grow
+	bp := s.buildPool(w)
+	var src mining.TxSource
+	if s.src == "pool" {
+		preNow := s.now
+		if s.fwd > 0 {
+			preNow -= worldSpacing * int64(s.fwd)
+		}
+		ci.clock.set(preNow)
+		mp, res := s.realPool(ci, bp)
+		if res != "" {
+			return res
+		}
+		src = mp
+	}
+	if s.fwd > 0 {
+		ci.clock.set(s.now + 100000)
+		if err := ci.extend(s.fwd); err != nil {
+			dbg("extend: %v", err)
+			return "stale-line:extend"
 		}
 	}
 	ci.clock.set(s.now)
@@ -148,8 +170,7 @@ func execTmpl(s *scenario) string {
 		}
 	}
 
-	// 2. the pool, and the oracle values the line carries about it
-	bp := s.buildPool(w)
+	// 2. the oracle values the line carries about the pool
 	for i, o := range s.analyze(w, bp) {
 		t := s.txs[i]
 		if o.wt != t.wt || o.sc != t.sc || o.hw != t.hw || o.so != t.so || o.prio != t.prio {
@@ -158,7 +179,6 @@ func execTmpl(s *scenario) string {
 		}
 	}
 
-	var src mining.TxSource
 	switch s.src {
 	case "stub":
 		st := &stubSource{have: map[chainhash.Hash]struct{}{}}
@@ -169,11 +189,6 @@ func execTmpl(s *scenario) string {
 		}
 		src = st
 	case "pool":
-		mp, res := s.realPool(ci, bp)
-		if res != "" {
-			return res
-		}
-		src = mp
 	default:
 		return "bad-op"
 	}
